@@ -255,6 +255,17 @@ def _edge_offset_types(P, g):
             P.check(tag + "_false", P.same_truth(r, False))
 
 
+    # a raw-array estimate against a pose estimate holding the same numbers (custom edges of one class)
+    C = _custom_cls(g)
+    nums = P.vector("cz", 2)
+    c1 = C(list(ids), om, nums)
+    c2 = C(list(ids), om, g.PoseR2([nums[0], nums[1]]))
+    for tag, x, y in (("array_vs_pose_estimate", c1, c2), ("pose_vs_array_estimate", c2, c1)):
+        ok, r = safe(P, tag, lambda: x.equals(y, tol))
+        if ok:
+            P.check(tag + "_false", P.same_truth(r, False))
+
+
 # ------------------------------------------------------------------ graphs
 GRAPH_VARIANTS = ["copy", "vertex_order", "edge_order", "other_types", "smaller", "fewer_edges", "last_vertex_moved", "last_vertex_id", "dense_copy", "last_edge_differs"]
 
